@@ -4,7 +4,7 @@
    (C09_Model.v); [WellFormed] is the declarative conjunction of the rules of the
    property text (C09_Spec.v). Quantifiers: every document — any number of
    statements, stores, identities, scopes, any strings. *)
-From NV Require Import Base Regex Generated C02_Levels C04_DN C09_Model C09_Spec C09_Proofs C09_Audit.
+From NV Require Import Base Regex Generated C02_Levels C04_DN C09_Model C09_Spec C09_Proofs C09_Audit C09_Examples.
 Open Scope string_scope.
 
 (* an OCI document is accepted iff it obeys every rule *)
@@ -219,47 +219,28 @@ Theorem C09_verifier_integrity : forall c oci blob, construct c oci blob = EOk -
 Proof. exact verifier_integrity. Qed.
 Print Assumptions C09_verifier_integrity.
 
-(* ---------- non-vacuity and regression witnesses ---------- *)
-
-Definition ex_oci : doc :=
-  mk_doc "1.0"
-    [ mk_stmt "wabbit-networks-images" (mk_sv "strict" [("revocation", "skip")] "afterCertExpiry")
-        ["ca:valid-trust-store"; "signingAuthority:valid-trust-store"]
-        ["x509.subject:C=US, ST=WA, O=wabbit-network.io, OU=org1"; "x509.subject:C=US,S=CA,O=acme"]
-        ["registry.acme-rockets.io/software/net-monitor"; "localhost:5000/a"] false;
-      mk_stmt "unsigned" (mk_sv "skip" [] "") [] [] ["registry.acme-rockets.io/software/unsigned"] false;
-      mk_stmt "rest" (mk_sv "audit" [] "") ["ca:a"] ["*"] ["*"] false ].
+(* ---------- non-vacuity and regression witnesses ----------
+   The documents ex_oci, ex_blob, ex_blob_global_skip and the evaluations behind the
+   Examples are in theories/C09_Examples.v (compiled once by make). *)
 
 Example C09_example_wellformed : WellFormed OCI ex_oci /\ validate_oci ex_oci = EOk.
-Proof. split; [apply oci_iff|]; vm_compute; reflexivity. Qed.
-
-Definition ex_blob : doc :=
-  mk_doc "1.0"
-    [ mk_stmt "skip-some" (mk_sv "skip" [] "") [] [] [] false;
-      mk_stmt "global" (mk_sv "permissive" [("expiry", "enforce")] "always")
-        ["ca:acme-rockets"; "tsa:...a"] ["x509.subject:C=US;ST=WA;O=a\,b"; "spiffe://other"] [] true ].
+Proof. exact example_wellformed. Qed.
 
 Example C09_example_blob_wellformed :
   WellFormed Blob ex_blob /\ validate_blob ex_blob = EOk
   /\ new_verifier (Some ex_oci) (Some ex_blob) = EOk
   /\ new_verifier (Some ex_oci) (Some (mk_doc "1.0" [])) = ENoStatements.
-Proof. split; [apply blob_iff|]; repeat split; vm_compute; reflexivity. Qed.
-
-Definition ex_blob_global_skip : doc :=
-  mk_doc "1.0" [ mk_stmt "a" (mk_sv "strict" [] "") ["ca:s"] ["*"] [] false;
-                 mk_stmt "g" (mk_sv "skip" [] "") [] [] [] true ].
+Proof. exact example_blob_wellformed. Qed.
 
 (* F1 (fixed by 81abfe4): a global blob statement with level skip is rejected *)
 Example C09_example_global_skip :
   validate_blob ex_blob_global_skip = EGlobalSkip /\ ~ WellFormed Blob ex_blob_global_skip.
-Proof.
-  split; [vm_compute; reflexivity|]. intros H. apply blob_iff in H. vm_compute in H. discriminate.
-Qed.
+Proof. exact example_global_skip. Qed.
 
 (* F11 (fixed by 7fbf478): the store names "." and ".." are rejected *)
 Example C09_example_dotdot :
   validate_oci (mk_doc "1.0" [mk_stmt "a" (mk_sv "strict" [] "") ["ca:.."] ["*"] ["*"] false]) = EStoreName.
-Proof. vm_compute; reflexivity. Qed.
+Proof. exact example_dotdot. Qed.
 
 (* integrity cannot be overridden; overlapping identities; a scope used twice *)
 Example C09_example_rejections :
@@ -268,7 +249,7 @@ Example C09_example_rejections :
         ["x509.subject:C=US,ST=WA,O=x"; "x509.subject:O=x,CN=y,ST=WA,C=US"] ["*"] false]) = EIdOverlap
   /\ validate_oci (mk_doc "1.0" [mk_stmt "a" (mk_sv "strict" [] "") ["ca:s"] ["*"] ["a/b"] false;
                                  mk_stmt "b" (mk_sv "strict" [] "") ["ca:s"] ["*"] ["a/b"] false]) = EScopeDup.
-Proof. repeat split; vm_compute; reflexivity. Qed.
+Proof. exact example_rejections. Qed.
 
 (* ---------- audit: the hypotheses of the theorems above are satisfiable ---------- *)
 
@@ -278,7 +259,7 @@ Example C09_example_integrity :
   validate OCI ex_oci = EOk
   /\ map level_obs (d_stmts ex_oci)
      = [Some ("custom", "eeees"); Some ("skip", "sssss"); Some ("audit", "ellll")].
-Proof. split; vm_compute; reflexivity. Qed.
+Proof. exact example_integrity. Qed.
 
 (* C09_names_safe / C09_identities_mandatory / C09_identities_disjoint: a
    store, an identity and a pair of identities of an accepted document *)
@@ -289,18 +270,14 @@ Example C09_example_instances :
   /\ x509_value (nth 1 (s_ids s) "") = Some "C=US,S=CA,O=acme"
   /\ parse_distinguished_name "C=US,S=CA,O=acme" = DOk [("O", "acme"); ("ST", "CA"); ("C", "US")]
   /\ (exists m, parse_distinguished_name "C=US, ST=WA, O=wabbit-network.io, OU=org1" = DOk m).
-Proof.
-  cbv zeta. split; [vm_compute; reflexivity|]. split; [left; reflexivity|].
-  split; [right; left; reflexivity|]. split; [vm_compute; reflexivity|].
-  split; [vm_compute; reflexivity|]. eexists. vm_compute. reflexivity.
-Qed.
+Proof. exact example_instances. Qed.
 
 (* C09_mandatory_required: "C=US,ST=WA" parses, is single-valued, lacks O, and
    the document is rejected by the real rule (class EIdDN) *)
 Example C09_example_mandatory :
   exists rdns m, parse_dn "C=US,ST=WA" = POk rdns /\ add_rdns rdns [] = DOk m
     /\ lookup_default "O" m = "" /\ validate_oci (mk_doc "1.0" [stmt_no_O]) = EIdDN.
-Proof. exact mandatory_required_witness. Qed.
+Proof. exact example_mandatory. Qed.
 
 (* C09_overlap_rejected: the first identity is within the third (positions 0 and 2) *)
 Example C09_example_overlap :
@@ -309,9 +286,7 @@ Example C09_example_overlap :
   /\ parse_distinguished_name "O=x,CN=y,ST=WA,C=US" = DOk [("C", "US"); ("ST", "WA"); ("CN", "y"); ("O", "x")]
   /\ validate_oci (mk_doc "1.0" [mk_stmt "a" (mk_sv "strict" [] "") ["ca:s"]
         ["x509.subject:C=US,ST=WA,O=x"; "foo:bar"; "x509.subject:O=x,CN=y,ST=WA,C=US"] ["*"] false]) = EIdOverlap.
-Proof.
-  split; [apply subset_within; vm_compute; reflexivity|]. repeat split; vm_compute; reflexivity.
-Qed.
+Proof. exact example_overlap. Qed.
 
 (* C09_forced_constructors: each constructor accepts something; nothing is
    constructed without a trust store; New does not take the blob document;
@@ -324,7 +299,7 @@ Example C09_example_constructors :
   /\ construct (CtorWithOptions (Some ex_oci)) None None = EBothNil
   /\ construct (CtorWithOptions (Some ex_oci)) (Some ex_scope_twice) (Some ex_blob) = EScopeDup
   /\ construct (CtorWithOptions (Some ex_scope_twice)) (Some ex_oci) None = EOk.
-Proof. repeat split; vm_compute; reflexivity. Qed.
+Proof. exact example_constructors. Qed.
 
 (* C09_model_meets_oracle: inputs inside the contract, for every constructor *)
 Example C09_example_contract :
@@ -332,4 +307,5 @@ Example C09_example_contract :
   /\ wf (mk_input_c Blob (Some ex_blob) None (CtorWithOptions (Some ex_oci))) = true
   /\ o_new (model (mk_input_c Blob (Some ex_blob) (Some ex_oci) CtorNew)) = EOk
   /\ o_new (model (mk_input_c OCI None (Some ex_blob) CtorNew)) = EBothNil.
-Proof. repeat split; vm_compute; reflexivity. Qed.
+Proof. exact example_contract. Qed.
+
